@@ -511,6 +511,17 @@ class Act:
         self.fails = []
 
 
+def hir_nodes(n):
+    if isinstance(n, dict):
+        if "k" in n:
+            yield n
+        for v in n.values():
+            yield from hir_nodes(v)
+    elif isinstance(n, list):
+        for x in n:
+            yield from hir_nodes(x)
+
+
 class InterpError(Exception):
     pass
 
@@ -840,10 +851,12 @@ class Interp:
                         fs.append(self.bindpat(sp if k == "TupleStruct" else sp["pat"], sub, fr))
                     return And(*fs)
                 if vname == "Some":
-                    f = atom("some", v0.r())
+                    f = self._some(v0)
+                    f = f if f is not None else atom("some", v0.r())
                     subsel = lambda key: Sel(v, "?")
                 elif vname == "None":
-                    f = Not(atom("some", v0.r()))
+                    f = self._some(v0)
+                    f = Not(f if f is not None else atom("some", v0.r()))
                     subsel = lambda key: Sel(v, "?")
                 else:
                     f = atom("variant", v0.r(), short)
@@ -1154,7 +1167,10 @@ class Interp:
                 return UNIT
             elem = elem_of(it)
             self.bindpat(n["pat"], elem, fr)
-            self.ctx.append(("rep", core(it).src if isinstance(core(it), IterMapV) else it, it))
+            src_ = it
+            while isinstance(core(src_), IterMapV):
+                src_ = core(src_).src
+            self.ctx.append(("rep", src_, it))
             self.ctx.append(("iter", Act("<iter>")))
             try:
                 self.ev(n["body"], fr)
@@ -1171,6 +1187,18 @@ class Interp:
         inner = body.get("expr")
         if inner is None and len(body.get("stmts", [])) == 1:
             inner = body["stmts"][0].get("e")
+        stmts_ = body.get("stmts") or []
+        if stmts_ and stmts_[0].get("k") == "Let" and stmts_[0].get("els") is not None and stmts_[0].get("init"):
+            st0 = stmts_[0]
+            init = st0["init"]
+            pat = st0["pat"]
+            somepat = (pat.get("ctor_of") or pat.get("def") or "")
+            only_break = [m_["k"] for m_ in hir_nodes(st0["els"]) if m_["k"] in ("Break", "Ret", "Continue")] == ["Break"]
+            if init["k"] == "MethodCall" and init["name"] == "next" and somepat.endswith("Some") and pat["k"] in ("TupleStruct", "Struct") and only_break:
+                # `loop { let Some(pat) = it.next() else { break }; rest }` is `for pat in it { rest }`
+                sub = pat["pats"][0] if pat["k"] == "TupleStruct" else pat["fields"][0]["pat"]
+                rest = dict(body, stmts=stmts_[1:])
+                return self.ev_For({"k": "For", "pat": sub, "iter": init["recv"], "body": rest, "sp": n.get("sp")}, fr)
         if inner and inner["k"] == "If" and inner["c"]["k"] == "LetCond" and inner.get("e") is not None:
             c = inner["c"]
             init = c["init"]
@@ -1725,10 +1753,26 @@ class Interp:
         def _ctoritem(x):
             x = core(x)
             return isinstance(x, Def) and "Ctor" in (x.dk or "") and hasattr(x, "ctor_of")
-        if any(isinstance(core(a), ClosureV) or _fnitem(a) or _ctoritem(a) for a in args):
+        def _foreignfn(x):
+            x = core(x)
+            return isinstance(x, Def) and x.dk in ("Fn", "AssocFn") and x.path not in self.crate.bodies and last in ("map", "and_then", "map_err", "filter_map", "flat_map", "for_each", "filter", "find", "any", "all")
+        if any(isinstance(core(a), ClosureV) or _fnitem(a) or _ctoritem(a) or _foreignfn(a) for a in args):
             new_args = []
             for a in args:
                 ca = core(a)
+                if _foreignfn(ca) and a is not args[0]:
+                    # `.map(ObjectIdentifier::from_slice)`: a foreign function applied to the symbolic element / payload
+                    el = args[0] if args else Unknown("recv")
+                    rn_ty = (n.get("recv") or {}).get("ty", "")
+                    if last == "map_err":
+                        sym0 = Sel(el, "#Err.0")
+                    elif "Option<" in rn_ty[:40] or "Result<" in rn_ty[:40]:
+                        sym0 = Sel(el, "?")
+                    else:
+                        sym0 = elem_of(el)
+                    syn = {"k": "Call", "callee": ca.path, "sp": n.get("sp"), "ty": "", "args": []}
+                    new_args.append(Via("closure-result", self.call_fn(ca.path, None, [sym0], syn, fr), ca.path))
+                    continue
                 if _ctoritem(ca):
                     # `.map(SanType::DnsName)`: the constructor applied to the symbolic element / payload
                     el = args[0] if args else Unknown("recv")
@@ -1783,7 +1827,7 @@ class Interp:
                     else:
                         sym = [Unknown("arg%d" % i) for i in range(np_)]
                     src_it = args[0] if args else Unknown("?")
-                    if isinstance(core(src_it), IterMapV):
+                    while isinstance(core(src_it), IterMapV):
                         src_it = core(src_it).src
                     self.ctx.append(("rep", src_it) if last in ("fold", "for_each", "filter_map", "map", "retain", "find", "find_map", "filter", "flat_map") and not ("Option<" in (n.get("recv") or {}).get("ty", "")[:40] or "Result<" in (n.get("recv") or {}).get("ty", "")[:40]) else ("cond", True))
                     try:
@@ -1823,6 +1867,11 @@ class Interp:
     def _some(self, c0):
         if isinstance(c0, StructV) and c0.variant:
             return c0.variant == "Some"
+        if isinstance(c0, CallV) and c0.callee.endswith("Iterator>::next") and c0.args and isinstance(c0.args[0], SnapV) and c0.args[0].k == 1:
+            # the first `next()` of a fresh iterator over P yields Some exactly when P is not empty
+            base_ = core(c0.args[0].mv.base)
+            if isinstance(base_, (Param, Sel)):
+                return Not(atom("empty", base_.r()))
         if isinstance(c0, PhiV):
             flat_ = flatten_phi(c0)
             if all(isinstance(core(x), StructV) and core(x).variant in ("Some", "None") for _, x in flat_):
